@@ -206,6 +206,22 @@ CLAIMED = {
              'for the code after fixes be2f32d, 66de80c, 4d29cd7, 205ac9b, cefdd18 (single-segment deliver_sm KeyError). No axioms.',
         technique='Coq proof: exception-class closure of the parser by structural error-set lemmas, reaction case analysis, induction over the byte stream; trace correspondence of the real session on a virtual-time loop',
         design='6 (C05)'),
+    'C06': dict(
+        text='Coq theorems (Props/C06.v) over an executable model of the loop body of _dequeue_messages for a SubmitSm (Model/Send.v: segmentation '
+             'decision for every encoding name, clones with SAR parameters, per-segment sequence number and pdu(), classification of errors in the '
+             'guarded region - the build-error classes and the extent of the guarded region are read off esme.py by the translator): building the '
+             'PDUs of ANY constructor-valid SubmitSm under ANY default alphabet ends normally or with ValueError (incl. UnicodeEncodeError), '
+             'struct.error, KeyError or LookupError, all of which the sender reports to send_error and survives; one queued message is either '
+             'written in full or handed to send_error exactly once; a queue of any length never ends the Sender task and is handled in order. '
+             'Tied to the code by queueing generated SubmitSm objects (negative and boundary integers, names without codec, UDHI, every size '
+             'limit, NUL/non-ASCII strings, out-of-range optional parameters) on the real ESME.start() over a virtual-time loop and comparing the '
+             'order and bytes of sending/send_error hook calls with the model; an oracle checks start() and the Sender alive, one connection, '
+             'wire = announced PDUs, outcomes in queue order, at most one send_error per message.',
+        note='Trusted: Coq kernel, translator, harness. Outside the model: stdlib codecs and non-GSM codecs under non-strict error handlers (oracle only); '
+             'transport failures (they end the cycle by design: C07). Proved for the code after fixes 77053b5, e3719d2 (build errors other than '
+             'ValueError ended the session), eac4e7b (segmentation errors escaped the guarded region). No axioms.',
+        technique='Coq proof: exception-class closure of the encoder and splitters by structural error-set lemmas, induction over the queue; trace correspondence of the real session on a virtual-time loop',
+        design='6 (C06)'),
 }
 
 PENDING_REASON = 'check not built yet in this round (planned, see DESIGN.md section 6); not claimed until its proof and correspondence run exist'
